@@ -38,7 +38,7 @@ ASSUMPTIONS = [
   'nothing is asserted about the partial effects of a call that raised (they legitimately differ between eager and traced execution); the twin is re-synchronised from the caller\'s objects afterwards and the NEXT call must conform',
   'pmap, shard_map, custom_vjp are not covered (broken on this jax even with the shim)',
 ]
-PROBES = ['T_jit', 'T_remat', 'T_cond', 'T_switch', 'T_while_loop', 'T_fori_loop', 'T_cached_partial', 'cache_hit_same_structure', 'structure_changed_between_calls', 'aliased_arguments', 'structural_edit_in_trace', 'new_object_created_in_trace', 'fault_in_trace', 'call_after_fault', 'cached_partial_rejects_structure_change', 'control_flow_rejects_structural_edit']
+PROBES = ['T_jit', 'T_remat', 'T_cond', 'T_switch', 'T_while_loop', 'T_fori_loop', 'T_cached_partial', 'cache_hit_same_structure', 'structure_changed_between_calls', 'aliased_arguments', 'structural_edit_in_trace', 'new_object_created_in_trace', 'fault_in_trace', 'call_after_fault', 'cached_partial_rejects_structure_change']
 
 CROSS_RUN_STATE = True
 
@@ -268,7 +268,7 @@ def build_fn(fd, heap_kind):
     def cp(nodes, x, sel, trips):
       # cached_partial works on a clone of the node's structure taken when it is created (documented): a user
       # re-creates it after changing the node's structure from outside, and so does the harness
-      key = (id(nodes[0]), shape_key(nodes[0]))
+      key = (id(nodes[0]), shape_key(nodes[0]), tuple(sorted(W.real_objects(nodes[0]))))  # structure AND object identities
       if key not in cache:
         cache[key] = (nnx.cached_partial(jf, nodes[0]), nodes[0])
       return cache[key][0](x)
